@@ -4,7 +4,7 @@ matching (wrong role / axis / constant => violation, unrecognised shape =>
 exit 2)."""
 import ast
 
-from ..model import (AnalysisError, FunctionInfo, dotted, norm_text,
+from ..model import (AnalysisError, FunctionInfo, expand_aug, dotted, norm_text,
                      names_read, const_value, is_none)
 from ..cfg import structural_guards
 from ..rules import roles
@@ -112,6 +112,7 @@ def _bad(node, what, *expected):
 def _defs(fn):
   d = {}
   for st in ast.walk(fn.node):
+    st = expand_aug(st)
     if isinstance(st, ast.Assign):
       for t in st.targets:
         nm = dotted(t)
